@@ -441,7 +441,7 @@ def raw_to_support_converter(file_in,file_out):
   return
 
 def converge_to_support_converter(file_in,file_out):
-  steps, energy = read_converge_file(file_in)
+  steps, energy = read_raw_file(file_in) # is in 'converge' format
   write_raw_file(write_monitor( *converge_to_support(steps,energy) ),
                  file_out,header="written in 'support' format")
   return
